@@ -109,6 +109,8 @@ def post_state_oracle(kind):
                     want = 'E' if int(a[1]) == 0 else 'R' + a[1]
                 elif op[0] in 'aC' and int(a[1]) != t:
                     want = prev[int(a[1])]
+                elif op[0] == 'a' and int(a[1]) == t:
+                    want = prev[t]            # self copy-assignment leaves the object as it was
                 elif op[0] in 'mX' and int(a[1]) != t:
                     want = prev[int(a[1])]
                 if want is not None and st[t] != want:
@@ -285,6 +287,8 @@ def variant_post_state(line, out):
                 want = 'E'
             elif op[0] in 'CXam' and int(a[1]) != t:
                 want = prev[int(a[1])]
+            elif op[0] == 'a' and int(a[1]) == t:
+                want = prev[t]                # self copy-assignment leaves the object as it was
             elif op[0] == 'B':
                 k = int(a[1])
                 cur = prev[t]
@@ -369,7 +373,9 @@ def check_C12(ctx):
     ccases = [nothrow_trivial(sq) for k, sq in histories(ctx, calpha, csetups, crnd, ['varc'], 2 if ctx.quick else 3, 3000 if ctx.quick else 60000, 16 if ctx.quick else 40)]
     hl = ['varc ' + ','.join(sq) for sq in ccases]
     ml = ['varm ' + ','.join(to_model(op) for op in sq) for sq in ccases]
-    ho, mo = run_objs(pool, hl), run_driver(pool, ml)
+    # the model translates the converting operations itself (Objects.vc_to_vop with the harness's placement, extracted);
+    # the Python translation above only feeds the post-state oracle, which is independent of the model
+    ho, mo = run_objs(pool, hl), run_driver(pool, hl)
     cbroken = []
     for line, mline, o, m in zip(hl, ml, ho, mo):
         ctx.count('variant-convertible-histories', line)
@@ -941,15 +947,18 @@ def split_top(s):
 
 # ------------------------------------------------------------------ C19 -----
 def library_static_storage(binary):
-    """writable objects with static or thread storage duration that belong to the library,
-    as linked into a binary"""
-    r = run(['nm', '-C', binary], timeout=300)
+    """writable objects with static or thread storage duration that belong to the library, as linked into a binary:
+    data symbols (local, global, weak / COMDAT — a static local of an inline or template function is a weak object, and
+    GNU unique) whose section is writable"""
+    r = run(['nm', '-C', '-f', 'sysv', binary], timeout=300)
     out = []
     for l in r.stdout.splitlines():
-        p = l.split(' ', 2)
-        if len(p) < 3 or p[1] not in 'bBdD':
+        p = l.split('|')
+        if len(p) < 7:
             continue
-        name = p[2]
+        name, cls, sect = p[0].strip(), p[2].strip(), p[6].strip()
+        if cls not in ('b', 'B', 'd', 'D', 'V', 'v', 'u') or not sect.startswith(('.bss', '.data', '.tbss', '.tdata')) or sect.startswith('.data.rel.ro'):
+            continue
         if name.startswith(('typeinfo', 'vtable', 'VTT', 'construction vtable')):
             continue
         base = name[len('guard variable for '):] if name.startswith('guard variable for ') else name
